@@ -265,3 +265,26 @@ def emit_surplus_refinement_sets(R, fam):
             "fidelity": X.fidelity(src, b, extra_vocab=["clearRefinement", "proposeUpdatedTensors", "MultiIndexManipulations", "selectFlaggedChildren", "points", "flagged", "level_limits", "MultiIndexSet", "kids", "completeSetToLower",
                                                        "updated_tensors", "std", "move", "needed", "empty", "getNumIndexes", "prepareSequence", "0", ">", "-", "+=", "="], slack=30)}
     return '#line %d "%s"\nvoid setSurplusRefinement_%s(GS *self){%s}\n' % (p.line, X.REPO + "/" + p.rel, fam, b), info
+
+
+def emit_getNormalization(R):
+    """GridLocalPolynomial::getNormalization and GridWavelet::getNormalization: the per-output magnitude the classic criterion normalizes with."""
+    outs, fns, srcs, emis = [], [], [], []
+    for fam, rel, vec in (("LocalPolynomial", LP, "norms"), ("Wavelet", WV, "norm")):
+        text = X.strip_comments(X.read_source(rel))
+        (p,) = X.cut(rel, r'std::vector<double>\s+Grid%s::getNormalization\s*\(\s*\)\s*const' % fam, text)
+        b = p.body
+        b = R.sub("R5-local-vector", r'std::vector<double>\s+%s\(\s*num_outputs\s*(?:,\s*0\.0\s*)?\)\s*;' % vec, 'double *%s = out; for (int z_ = 0; z_ < self->num_outputs; z_++) out[z_] = 0.0;' % vec, b)
+        b = R.sub("R10-receiver-call", r'\bpoints\.getNumIndexes\(\)', 'self->num_points', b)
+        b = R.sub("R10-receiver-call", r'\bvalues\.getValues\(\s*i\s*\)', '(&self->values[(size_t) i * (size_t) self->num_outputs])', b)
+        b = X.r2_std_math(R, b)
+        b = R.sub("R10-member", r'(?<![\w.>_])num_outputs\b', 'self->num_outputs', b)
+        b = b.replace("self->self->", "self->")
+        b = R.sub("R5-return-vector", r'return\s+%s\s*;' % vec, 'return;', b)
+        X.check_leftover(b, "getNormalization")
+        outs.append('#line %d "%s"\nvoid getNormalization_%s(const GN *self, double *out)%s' % (p.line, X.REPO + "/" + p.rel, fam, b))
+        fns.append({"name": "Grid%s::getNormalization" % fam, "file": p.rel, "line": p.line, "loops": X.count_loops(b)}); srcs.append(p.body); emis.append(b)
+    R.require({"R5-local-vector": 2, "R10-receiver-call": 4, "R5-return-vector": 2})
+    info = {"functions": fns, "rules_fired": {k: v for k, v in R.counts.items() if v},
+            "fidelity": X.fidelity("\n".join(srcs), "\n".join(emis), extra_vocab=["std", "vector", "double", "norms", "norm", "num_outputs", "points", "getNumIndexes", "values", "getValues", "abs", "return", "0.0"], slack=10)}
+    return "\n".join(outs) + "\n", info
